@@ -41,7 +41,7 @@ impl Scenario for C15S {
         }
     }
     fn rule(&self) -> &'static str {
-        "enumeration: attachment count 0..300 x mixture (senders | receivers | regions | mixed) x data part (empty | small | exactly one packet | one byte over | multi-packet); each case with a receiver thread that probes every received attachment, then a normal follow-up message; quick runs the enumeration 3 times (two SO_SNDBUF settings; the third pass with ENOBUFS on the first transmission attempt), thorough 100 times; non-trivial = more than 60 attachments; distinct = distinct (count, mixture, data part, schedule hash)"
+        "enumeration: attachment count 0..300 x mixture (senders | receivers | regions | mixed) x data part (empty | small | exactly one packet | one byte over | multi-packet); each case with a receiver thread that probes every received attachment, then a normal follow-up message; at the end, with every handle dropped, the descriptor table must be back at its baseline (accepted or refused); quick runs the enumeration 3 times (two SO_SNDBUF settings; the third pass with ENOBUFS on the first transmission attempt), thorough 100 times; non-trivial = more than 60 attachments; distinct = distinct (count, mixture, data part, schedule hash)"
     }
     fn gen(&self, seed: u64, idx: u64, _tier: Tier, _variant: &str) -> Value {
         let rep = idx / BASE;
@@ -75,6 +75,7 @@ impl Scenario for C15S {
     fn run(&self, p: &Value) -> Outcome {
         let mut out = Outcome::default();
         start_sim(p);
+        let base_fds = super::util::fd_baseline();
         let n = p["n"].as_u64().unwrap_or(0).min(320) as usize;
         let mix = p["mix"].as_str().unwrap_or("senders").to_string();
         let len = p["len"].as_u64().unwrap_or(0).min(4 << 20) as usize;
@@ -210,6 +211,15 @@ impl Scenario for C15S {
         }
         for e in evs.iter().filter(|e| e.op == "recv.err") {
             out.viol("recv-error:recv", e.s.clone());
+        }
+        // every handle of the scenario is gone by now (the message was moved into send, the receiver
+        // dropped what it got): whatever the send set up for the transfer must be closed again,
+        // whether it accepted or refused the message
+        if blocked.is_empty() && evs.iter().any(|e| e.op == "receiver.done") {
+            let extra = super::util::fds_beyond(&base_fds);
+            if !extra.is_empty() {
+                out.viol(if ok { "descriptor-leak:accepted-send" } else { "descriptor-leak:refused-send" }, format!("after a send with {} attachments was {} and every handle was dropped, {} descriptor(s) remain open: {}", n, if ok { "accepted" } else { "refused" }, extra.len(), extra.join(", ")));
+            }
         }
         for pn in hist::panics() {
             out.viol(&hist::panic_sig(pn), format!("panic in [{}]: {} at {}", pn.label, pn.msg, pn.loc));
